@@ -103,6 +103,8 @@ func (c *FnCtx) execSelect(fr *Frame, st *State, i *ssa.Select) {
 	for k, s := range i.States {
 		ch := c.val(fr, s.Chan)
 		cond := fmt.Sprintf("(= %s %d)", idx, k)
+		// an operation on a nil channel is never ready: that case is never the one chosen
+		c.assume(st, "(=> "+cond+" (not (= "+ch.E+" 0)))")
 		if s.Dir == types.SendOnly {
 			v := c.val(fr, s.Send)
 			c.guarded(st, cond, func(gs *State) { c.chanSend(fr, gs, ch, v, s.Pos) })
